@@ -25,7 +25,9 @@ func TestAgainstSystemHeader(t *testing.T) {
 	}
 	var sb strings.Builder
 	sb.WriteString("#include <stdio.h>\n#include <stddef.h>\n#include <sys/stat.h>\n#include <linux/audit.h>\n#include <linux/netlink.h>\nint main(void){\n")
-	emit := func(name, expr string) { fmt.Fprintf(&sb, "printf(\"%s %%lu\\n\", (unsigned long)(%s));\n", name, expr) }
+	emit := func(name, expr string) {
+		fmt.Fprintf(&sb, "printf(\"%s %%lu\\n\", (unsigned long)(%s));\n", name, expr)
+	}
 	want := map[string]uint64{}
 	add := func(name, expr string, v uint64) { emit(name, expr); want[name] = v }
 	cname := map[string]string{"auid": "LOGINUID", "subj_sen": "SUBJ_SEN", "subj_clr": "SUBJ_CLR", "path": "WATCH", "key": "FILTERKEY", "a0": "ARG0", "a1": "ARG1", "a2": "ARG2", "a3": "ARG3"}
